@@ -8,7 +8,6 @@ import (
 
 	"github.com/IrineSistiana/mosproxy/internal/dnsmsg"
 	"github.com/IrineSistiana/mosproxy/internal/dnsutils"
-	"github.com/IrineSistiana/mosproxy/internal/pool"
 	"github.com/rs/zerolog"
 )
 
@@ -76,7 +75,9 @@ func (t *ReuseConnTransport) ExchangeContext(ctx context.Context, m []byte) (*dn
 	if err != nil {
 		return nil, err
 	}
-	defer pool.ReleaseBuf(payload)
+	// Note: payload is not returned to the buffer pool. The goroutine that performs the exchange keeps
+	// using it after this call has returned early (ctx done); recycling it here would hand its memory to
+	// another request while it is still being written to the connection.
 
 	errs := make([]error, 0)
 	retry := 0
